@@ -13,13 +13,13 @@ def run_ops(ctx, vecs, formats, allowlist=False):
 def run(ctx):
     ctx.level = "model_checking"
     ctx.assumptions += ["requests are observed at the SDK's built-in generic HTTP client (transport override hook), so requests issued through contexts the SDK creates internally are seen too",
-                        "request kinds are recognised by the hosts the harness itself put into the assets / signer (manifests.example, tsa.example); the fixture certificates carry no OCSP URL"]
+                        "request kinds are recognised by the hosts the harness itself put into the assets / signer (manifests.example, tsa.example); only fixture ocsp.jpg is signed with a certificate naming an OCSP responder (its requests are recognised by method/URL)"]
     r = tlc_expect_ok(tlc("MC_NetGate", "MC_NetGate.cfg", workers=2, timeout=300), "MC NetGate")
     ctx.add_tlc(r)
     e = tlc_expect_ok(tlc("MC_NetGate", "MC_NetGate_emit.cfg", name="c28emit", workers=2, timeout=300, coverage=False), "emit")
     vecs = e.printed("VEC")
-    if len(vecs) != 288:
-        raise ToolError("expected 288 configurations, got %d" % len(vecs))
+    if len(vecs) != 720:
+        raise ToolError("expected 720 configurations, got %d" % len(vecs))
     formats = "jpg,png" if ctx.quick else "jpg,png,webp,gif,svg,tiff,wav,mp4"
     recs = run_ops(ctx, vecs, formats)
     good = []
@@ -45,7 +45,7 @@ def run(ctx):
     ctx.cov["evaluations"] = len(recs)
     ctx.cov["distinct_nontrivial"] = sum(1 for x in good if x["requests"] or x["asset"] != "unsigned")
     ctx.cov["exhaustive"] = True
-    ctx.cov["rule"] = "all 288 (settings x asset kind x operation) configurations of the spec x formats %s; non-trivial = signed asset or at least one request" % formats
+    ctx.cov["rule"] = "all 720 (settings x asset kind x operation) configurations of the spec x formats %s; non-trivial = signed asset or at least one request" % formats
     ctx.sample({k: good[5][k] for k in ("format", "cfg", "asset", "op", "requests", "result")})
     withreq = [x for x in good if x["requests"]]
     if withreq:
